@@ -403,6 +403,9 @@ pub struct Failure {
     pub case: Value,
     pub sig: String,
     pub detail: String,
+    /// the failure as first found, before shrinking: (case, signature, detail)
+    #[serde(default)]
+    pub first: Option<(Value, String, String)>,
 }
 
 /// Evaluate one case, mapping panics to Fail verdicts.
@@ -442,12 +445,14 @@ pub fn run_worker<P: Property>(p: &P, cfg: &WorkerCfg) -> WorkerResult {
         hashes: BTreeSet<u64>,
         failed_once: bool,
         first_fail_sig: Option<String>,
+        first_fail: Option<(Value, String, String)>,
     }
     let state = std::cell::RefCell::new(WState {
         res,
         hashes: BTreeSet::new(),
         failed_once: false,
         first_fail_sig: None,
+        first_fail: None,
     });
     let journal = PathBuf::from(&cfg.journal);
 
@@ -502,6 +507,7 @@ pub fn run_worker<P: Property>(p: &P, cfg: &WorkerCfg) -> WorkerResult {
                 if counting {
                     st.failed_once = true;
                     st.first_fail_sig = Some(sig.clone());
+                    st.first_fail = Some((serde_json::to_value(&case).unwrap_or(Value::Null), sig.clone(), detail.clone()));
                 } else if std::env::var("VERIF_SHRINK_ANY_SIG").is_err() {
                     // keep shrinking on the same signature only, so the minimal case shows the
                     // failure that was found and not a neighbouring one
@@ -513,7 +519,7 @@ pub fn run_worker<P: Property>(p: &P, cfg: &WorkerCfg) -> WorkerResult {
             }
         }
     });
-    let WState { mut res, hashes, first_fail_sig, .. } = state.into_inner();
+    let WState { mut res, hashes, first_fail_sig, first_fail, .. } = state.into_inner();
 
     match result {
         Ok(()) => {}
@@ -531,6 +537,7 @@ pub fn run_worker<P: Property>(p: &P, cfg: &WorkerCfg) -> WorkerResult {
                 case: serde_json::to_value(&minimal).unwrap_or(Value::Null),
                 sig,
                 detail,
+                first: first_fail,
             });
         }
         Err(TestError::Abort(reason)) => {
@@ -880,8 +887,60 @@ pub fn supervise<P: Property>(p: &P, opts: &RunOpts) -> i32 {
                         Some(r) if status.success() => {
                             merge_result(&mut agg, &mut hashes, &r);
                             if let Some(f) = r.failure {
-                                let path = write_replay(id, &f.case, &f.sig, &f.detail);
-                                sup.violations.push((f.sig, path, f.detail));
+                                // a violation comes with a case that fails again in a fresh process:
+                                // the shrunk case first, then the case as first found (three tries
+                                // each); a failure that cannot be reproduced is reported as
+                                // inconclusive, with what was seen
+                                let mut confirmed = false;
+                                let mut candidates = vec![(f.case.clone(), f.sig.clone(), f.detail.clone())];
+                                if let Some(first) = &f.first {
+                                    candidates.push(first.clone());
+                                }
+                                'cands: for (n, (case, sig, detail)) in candidates.iter().enumerate() {
+                                    let tmp = wd.join(format!("confirm-{}-{}.json", i, n));
+                                    let _ = std::fs::write(&tmp, serde_json::to_vec(case).unwrap_or_default());
+                                    for _ in 0..3 {
+                                        match isolate_case(id, &tmp, Duration::from_secs(180)) {
+                                            Isolated::Verdict(Verdict::Fail { sig: s2, .. }) if strict_tolerated.iter().any(|pat| sig_matches(pat, &s2)) => {}
+                                            Isolated::Verdict(Verdict::Fail { sig: s2, detail: d2 }) => {
+                                                let path = write_replay(id, case, &s2, &d2);
+                                                sup.violations.push((s2, path, d2));
+                                                confirmed = true;
+                                                break 'cands;
+                                            }
+                                            Isolated::Crashed { status, stderr_tail } => {
+                                                let s2 = crash_signature(&stderr_tail, &status);
+                                                if !tolerated.iter().any(|pat| sig_matches(pat, &s2)) {
+                                                    let path = write_replay(id, case, &s2, &stderr_tail);
+                                                    sup.violations.push((s2, path, stderr_tail));
+                                                    confirmed = true;
+                                                    break 'cands;
+                                                }
+                                            }
+                                            Isolated::TimedOut => {
+                                                if p.hang_is_violation() {
+                                                    let path = write_replay(id, case, "hang|watchdog", "case still running after 180 s in isolation");
+                                                    sup.violations.push(("hang|watchdog".into(), path, "hang".into()));
+                                                    confirmed = true;
+                                                    break 'cands;
+                                                }
+                                            }
+                                            Isolated::Verdict(_) => {}
+                                        }
+                                    }
+                                    let _ = (sig, detail);
+                                }
+                                if !confirmed {
+                                    let (_, sig, detail) = f.first.clone().unwrap_or((Value::Null, f.sig.clone(), f.detail.clone()));
+                                    let kept = wd.join(format!("unreproduced-{}.json", i));
+                                    let _ = std::fs::write(&kept, serde_json::to_vec_pretty(&json!({"property": id, "signature": sig, "detail": detail, "case": f.first.as_ref().map(|x| x.0.clone()).unwrap_or(f.case.clone())})).unwrap_or_default());
+                                    sup.inconclusive.push(format!(
+                                        "a worker saw a failure ({}) that did not happen again in six isolated re-runs; kept at {}: {}",
+                                        sig,
+                                        kept.display(),
+                                        detail.lines().take(3).collect::<Vec<_>>().join(" / ")
+                                    ));
+                                }
                             }
                             if let Some(n) = r.shrink_note {
                                 sup.inconclusive.push(n);
